@@ -932,12 +932,15 @@ def u_reader_init(ctx, cls, given, degrees, opt, unequal=False):
 
 @unit(P, "Catalog.from_*.arguments", fuc=["yaw.catalog.catalog:Catalog.from_dataframe", "yaw.catalog.catalog:Catalog.from_file", "yaw.catalog.catalog:Catalog.from_random",
                                          "yaw.catalog.catalog:new_filereader"],
-      cases=[dict(which=w, mode=m) for w in ("from_dataframe", "from_file", "from_random") for m in ("apply", "divide", "create") if not (w == "from_random" and m == "divide")])
+      cases=[dict(which=w, mode=m) for w in ("from_dataframe", "from_file", "from_random") for m in ("apply", "divide", "create", "apply+num", "divide+num")
+             if not (w == "from_random" and m.startswith("divide"))])
 def u_from_args(ctx, which, mode):
     """every argument of the public constructors reaches the layer that uses it, on every path: column names, unit flag and chunk
     size the reader; probe size and patch number the centre generation; cache directory, centres, overwrite, progress and worker
     limit the writer; centres, progress and worker limit the loader; the returned catalog holds the loaded patches"""
     C = mod("yaw.catalog.catalog")
+    with_num = mode.endswith("+num")        # a patch number given *in addition*: centres > patch name > patch number
+    mode = mode.split("+")[0]
     got = {}
     S = {k: ("SENTINEL", k) for k in ("df", "gen", "W", "Z", "cs", "centers", "mw", "probe", "extra")}
     name = f"C18/Catalog.{which}.arguments"
@@ -973,7 +976,7 @@ def u_from_args(ctx, which, mode):
         pt.set(C, "write_patches", write_patches)
         pt.set(C, "load_patches", load_patches)
         ctx.canary()
-        pm = dict(patch_centers=S["centers"] if mode == "apply" else None, patch_num=pnum if mode == "create" else None)
+        pm = dict(patch_centers=S["centers"] if mode == "apply" else None, patch_num=pnum if (mode == "create" or with_num) else None)
         common = dict(overwrite=True, progress=True, max_workers=S["mw"], chunksize=S["cs"], probe_size=S["probe"])
         cols = dict(ra_name="RA", dec_name="DEC", weight_name=S["W"], redshift_name=S["Z"], patch_name="PID" if mode == "divide" else None, degrees=False)
         if which == "from_dataframe":
